@@ -58,3 +58,81 @@ Proof.
     - apply IH; assumption. }
   inversion Heq; subst. exists bn, ts'. split; assumption.
 Qed.
+
+(* ---- every writer (pstep): filter_block, add_fetched_tx, add_fetched_header, rollback_to_block ---- *)
+Definition consistent (W : list (N * N * list txid)) : Prop :=
+  forall bh bh' bn ts ts', In (bh, bn, ts) W -> In (bh', bn, ts') W -> bh = bh'.
+
+Definition PInv (st : pstore) (W : list (N * N * list txid)) : Prop :=
+  (forall t bn, a_get N.eqb t (p_txs st) = Some bn -> exists bh ts, In (bh, bn, ts) W /\ In t ts) /\
+  (forall bn bh, a_get N.eqb bn (p_num st) = Some bh -> exists ts, In (bh, bn, ts) W).
+
+Lemma PInv_weaken st W (W' : list (N * N * list txid)) : PInv st W -> PInv st (W ++ W').
+Proof.
+  intros [H1 H2]. split.
+  - intros t bn H. destruct (H1 _ _ H) as (bh & ts & Hin & Ht). exists bh, ts. split; [apply in_or_app; left; exact Hin | exact Ht].
+  - intros bn bh H. destruct (H2 _ _ H) as (ts & Hin). exists ts. apply in_or_app; left; exact Hin.
+Qed.
+
+Lemma num_put_inv st (W : list (N * N * list txid)) bh bn ts :
+  (forall n h, a_get N.eqb n (p_num st) = Some h -> exists ts0, In (h, n, ts0) W) ->
+  forall n h, a_get N.eqb n (a_put N.eqb bn bh (p_num st)) = Some h -> exists ts0, In (h, n, ts0) (W ++ [(bh, bn, ts)]).
+Proof.
+  intros H2 n h H. rewrite (a_get_put N.eqb Neqb_spec) in H. destruct (N.eqb_spec n bn) as [->|Hne].
+  - inversion H; subst. exists ts. apply in_or_app. right. left. reflexivity.
+  - destruct (H2 _ _ H) as (ts0 & Hin). exists ts0. apply in_or_app. left. exact Hin.
+Qed.
+
+Lemma pstep_inv st W o : PInv st W -> PInv (pstep st o) (W ++ record_of o).
+Proof.
+  intros Hinv. pose proof Hinv as [H1 H2]. destruct o as [bh bn ts|bh bn t0|bh bn|to].
+  - destruct ts as [|x ts']; [cbn [pstep record_of]; rewrite app_nil_r; exact Hinv|].
+    cbn [pstep record_of index_block]. split.
+    + cbn [p_txs]. intros t n H. rewrite fold_put_get in H. destruct (existsb (N.eqb t) (x :: ts')) eqn:E.
+      * inversion H; subst. exists bh, (x :: ts'). split; [apply in_or_app; right; left; reflexivity|].
+        apply existsb_exists in E. destruct E as [y [Hy Ey]]. apply N.eqb_eq in Ey. subst. exact Hy.
+      * destruct (H1 _ _ H) as (h & ts0 & Hin & Ht). exists h, ts0. split; [apply in_or_app; left; exact Hin | exact Ht].
+    + cbn [p_num]. apply num_put_inv. exact H2.
+  - cbn [pstep record_of]. split.
+    + cbn [p_txs]. intros t n H. destruct (a_get N.eqb t0 (p_txs st)) as [n0|] eqn:G.
+      * destruct (H1 _ _ H) as (h & ts0 & Hin & Ht). exists h, ts0. split; [apply in_or_app; left; exact Hin | exact Ht].
+      * rewrite (a_get_put N.eqb Neqb_spec) in H. destruct (N.eqb_spec t t0) as [->|Hne].
+        -- inversion H; subst. exists bh, [t0]. split; [apply in_or_app; right; left; reflexivity | left; reflexivity].
+        -- destruct (H1 _ _ H) as (h & ts0 & Hin & Ht). exists h, ts0. split; [apply in_or_app; left; exact Hin | exact Ht].
+    + cbn [p_num]. apply num_put_inv. exact H2.
+  - cbn [pstep record_of]. split.
+    + cbn [p_txs]. intros t n H. destruct (H1 _ _ H) as (h & ts0 & Hin & Ht). exists h, ts0. split; [apply in_or_app; left; exact Hin | exact Ht].
+    + cbn [p_num]. apply num_put_inv. exact H2.
+  - cbn [pstep record_of]. rewrite app_nil_r. exact Hinv.
+Qed.
+
+Lemma prun_inv_from ops : forall st W, PInv st W -> PInv (fold_left pstep ops st) (W ++ records ops).
+Proof.
+  induction ops as [|o ops IH]; intros st W H.
+  - cbn. unfold records. cbn. rewrite app_nil_r. exact H.
+  - cbn [fold_left]. unfold records. cbn [map concat]. rewrite app_assoc. apply IH. apply pstep_inv. exact H.
+Qed.
+
+Lemma prun_inv ops : PInv (prun ops) (records ops).
+Proof.
+  unfold prun. change (records ops) with ([] ++ records ops). apply prun_inv_from. split.
+  - intros t bn H. discriminate H.
+  - intros bn bh H. discriminate H.
+Qed.
+
+(* the block reported for a transaction was stored with it, whenever no height was written with two different hashes
+   (writing the same header again, in any order and by any of the writers, is harmless) *)
+Theorem pairing_truthful_ops ops t bh :
+  consistent (records ops) ->
+  reported_block (prun ops) t = Some bh ->
+  exists bn ts, In (bh, bn, ts) (records ops) /\ In t ts.
+Proof.
+  intros Hc H. destruct (prun_inv ops) as [H1 H2]. unfold reported_block in H.
+  destruct (a_get N.eqb t (p_txs (prun ops))) as [bn|] eqn:Ht; [|discriminate].
+  destruct (H1 _ _ Ht) as (bh' & ts & Hin & Hts). destruct (H2 _ _ H) as (ts' & Hin').
+  rewrite (Hc _ _ _ _ _ Hin Hin') in Hin. exists bn, ts. split; assumption.
+Qed.
+
+(* rollback_to_block changes nothing get_transaction_with_header reads *)
+Lemma rollback_keeps_pairing st to t : reported_block (pstep st (PX_rollback to)) t = reported_block st t.
+Proof. reflexivity. Qed.
